@@ -518,9 +518,16 @@ def other_dialect_like(ctx, xs, rows, ast_reqs, ast_meta):
                 for kind, (before, after, pyf, tmpl, mk, mkcol) in KINDS.items():
                     if kind == 'not-contains': continue
                     for path in ('const', 'param'):
-                        q = select('e for e in E if ' + tmpl % repr(x)) if path == 'const' else mk(E, x)
-                        c = q._translator.conditions[0]
-                        sql = q.get_sql()
+                        try:
+                            q = select('e for e in E if ' + tmpl % repr(x)) if path == 'const' else mk(E, x)
+                            c = q._translator.conditions[0]
+                            sql = q.get_sql()
+                        except Exception as ex:
+                            # Oracle reads '' as NULL: OraProvider normalises an empty-string parameter/constant to None and the comparison is refused
+                            ctx.count('like-dialect:%s:refused:%s%s' % (dialect, type(ex).__name__, ':empty-string' if x == '' else ''))
+                            if not (dialect == 'oracle' and x == ''):
+                                ctx.divergence('translation of a LIKE query failed on an offline dialect', [dialect, kind, path, x], model=None, impl='%s: %s' % (type(ex).__name__, short(str(ex), 100)))
+                            continue
                         ctx.case(['like-dialect', dialect, kind, path, x], kind='like-dialect:' + dialect)
                         ast_reqs.append({'op': 'like_ast', 'const': x if path == 'const' else None, 'before': before, 'after': after})
                         ast_meta.append((dialect, kind, path, x, {'pattern': conv_ast(c[2]), 'escape': len(c) == 4 and c[3] == ['VALUE', '!']}))
